@@ -27,7 +27,8 @@ type Instance struct {
 	// Errs: ingress ids whose item is unusual: "connErr" = IngressConn(conn, err) with BOTH a live connection and an
 	// error, "nilErr" = IngressConn(nil, err) (no connection at all)
 	Errs   map[string]string `json:"errs"`
-	Via    []int    `json:"via"`    // ingress ids that arrive through an attached source listener (IngressListener) instead of IngressConn
+	Via    []int    `json:"via"`
+	EachSrc bool    `json:"eachSrc"` // one source listener (one ingress goroutine) per listener-fed connection    // ingress ids that arrive through an attached source listener (IngressListener) instead of IngressConn
 	Settle int      `json:"settle"` // microseconds to wait after starting each op (0: none, stress)
 	Seed   int64    `json:"seed"`
 }
@@ -125,13 +126,39 @@ func Run(in Instance, _ int64) ([]Line, error) {
 	for _, v := range in.Via {
 		via[v] = true
 	}
-	var src *srcListener
-	if len(via) > 0 {
-		src = &srcListener{ch: make(chan *conn, 16), closed: make(chan struct{}), rec: rec}
-		if err := ln.IngressListener(src); err != nil {
+	// one source listener for all listener-fed connections, or (EachSrc) one per connection: as many ingress goroutines
+	srcs := map[int]*srcListener{}
+	var allSrcs []*srcListener
+	newSrc := func() (*srcListener, error) {
+		s := &srcListener{ch: make(chan *conn, 16), closed: make(chan struct{}), rec: rec}
+		if err := ln.IngressListener(s); err != nil {
 			return nil, err
 		}
-		defer src.Close()
+		allSrcs = append(allSrcs, s)
+		return s, nil
+	}
+	var src *srcListener
+	if len(via) > 0 {
+		if in.EachSrc {
+			for id := range via {
+				s, err := newSrc()
+				if err != nil {
+					return nil, err
+				}
+				srcs[id] = s
+			}
+		} else {
+			s, err := newSrc()
+			if err != nil {
+				return nil, err
+			}
+			src = s
+		}
+		defer func() {
+			for _, s := range allSrcs {
+				s.Close()
+			}
+		}()
 	}
 	var wg sync.WaitGroup
 	pending := sync.Map{}
@@ -160,7 +187,11 @@ func Run(in Instance, _ int64) ([]Line, error) {
 			c := &conn{id: n, rec: rec}
 			id := n
 			if via[id] {
-				src.ch <- c // the connection arrives on the source listener
+				if s, ok := srcs[id]; ok {
+					s.ch <- c
+				} else {
+					src.ch <- c // the connection arrives on the source listener
+				}
 				break
 			}
 			switch in.Errs[fmt.Sprint(id)] {
@@ -233,14 +264,14 @@ func Run(in Instance, _ int64) ([]Line, error) {
 			}
 			time.Sleep(200 * time.Microsecond)
 		}
-		if src != nil {
+		for _, s := range allSrcs {
 			// the ingress goroutine's return is not observable from outside; it has no effect on anything else,
 			// so it is placed here for every connection the goroutine took
-			src.mu.Lock()
-			for _, id := range src.pulled {
+			s.mu.Lock()
+			for _, id := range s.pulled {
 				rec.emit("IngressEnd", id, 0, "listener")
 			}
-			src.mu.Unlock()
+			s.mu.Unlock()
 		}
 		rec.emit("End", 0, 0, "")
 	case <-time.After(3 * time.Second):
